@@ -52,6 +52,8 @@ func init() {
 	extSchemas["(*regexp.Regexp).FindSubmatch"] = schemaFindSubmatch
 	extSchemas["(*regexp.Regexp).Match"] = schemaRegexpMatch
 	extSchemas["(*regexp.Regexp).MatchString"] = schemaRegexpMatch
+	extSchemas["strings.TrimLeft"] = schemaTrimLeft
+	extSchemas["strings.Compare"] = schemaStringsCompare
 	extSchemas["(*sync.Mutex).Lock"] = schemaMutexLock
 	extSchemas["(*sync.Mutex).Unlock"] = schemaMutexUnlock
 	extSchemas["(*math/rand.Rand).Int63"] = schemaInt63
@@ -611,4 +613,40 @@ func schemaParseUint(x *Exec, st *State, fn *ssa.Function, args []Val, c *ssa.Ca
 	good, val := x.parseUintTerms(s)
 	uv := o.TypedFresh(fmt.Sprintf("parseuint%d.v", seq), tyUint64)
 	return TupleVal{o.Ite(good, val, uv), x.iteVal(good, okErr, ue)}
+}
+
+// strings.TrimLeft(s, cutset) with a constant ASCII cutset: s without its leading run of cutset bytes.
+func schemaTrimLeft(x *Exec, st *State, fn *ssa.Function, args []Val, c *ssa.CallCommon) Val {
+	o := x.o
+	s := args[0].(StrVal)
+	cut, ok := args[1].(StrVal)
+	if !ok || len(cut.Alts) != 1 {
+		x.fail("strings.TrimLeft: cutset must be a constant")
+	}
+	var set [128]bool
+	for _, ch := range []byte(cut.Alts[0].S) {
+		if ch >= 128 {
+			x.fail("strings.TrimLeft: non-ASCII cutset")
+		}
+		set[ch] = true
+	}
+	k := x.leadRun(s, set)
+	return StrVal{Arr: s.Arr, Off: o.IdxAdd(s.Off, k), Len: o.IdxSub(s.Len, k)}
+}
+
+// strings.Compare(a, b): -1, 0 or +1; 0 iff equal contents; antisymmetric. (The lexicographic order itself is
+// an uninterpreted function of the two contents.)
+func schemaStringsCompare(x *Exec, st *State, fn *ssa.Function, args []Val, c *ssa.CallCommon) Val {
+	o := x.o
+	a, b := args[0].(StrVal), args[1].(StrVal)
+	if !o.M.BV {
+		r := o.UF("strings.Compare", IntSort, a.Arr, a.Off, a.Len, b.Arr, b.Off, b.Len)
+		rev := o.UF("strings.Compare", IntSort, b.Arr, b.Off, b.Len, a.Arr, a.Off, a.Len)
+		x.assume(o.And(o.Le(o.Int(-1), r), o.Le(r, o.Int(1))))
+		x.assume(o.Eq(r, o.Neg(rev)))
+		x.assume(o.Eq(o.Eq(r, o.Int(0)), x.seqEq(a, b)))
+		return r
+	}
+	x.fail("strings.Compare schema needs `mode int`")
+	return nil
 }
